@@ -82,7 +82,7 @@ func (c *modsetCache) loopMods(fr *frame, li *loopInfo) *modSet {
 // keysOfType lists the state keys an object of type t occupies.
 func (c *modsetCache) keysOfType(t types.Type, out map[string]bool) {
 	vc := c.e.vc
-	if su, ok := t.Underlying().(*types.Struct); ok {
+	if su, ok := t.Underlying().(*types.Struct); ok && isStruct(t) {
 		for i := 0; i < su.NumFields(); i++ {
 			f := su.Field(i)
 			if isStruct(f.Type()) {
